@@ -273,6 +273,34 @@ def _get_compound_type_id(
     return uuidgen.uuid5(s_obj.TYPE_ID_NAMESPACE, string_id)
 
 
+def _get_object_type_name(
+    t: s_objtypes.ObjectType,
+    *,
+    ctx: Context,
+) -> s_name.Name:
+    """Return the name under which an object type is described.
+
+    Compound types created while a query is compiled are named after
+    their components, which can be transient views (e.g. WITH bindings
+    of different types that share an alias), so the schema name of a
+    compound type neither identifies it nor is stable.  Name compound
+    types after their material components instead.
+    """
+    ctx.schema, t = t.material_type(ctx.schema)
+    components = t.get_union_of(ctx.schema).objects(ctx.schema)
+    if components:
+        return s_types.get_union_type_name(
+            (_get_object_type_name(c, ctx=ctx) for c in components),
+            opaque=t.get_is_opaque_union(ctx.schema),
+        )
+    components = t.get_intersection_of(ctx.schema).objects(ctx.schema)
+    if components:
+        return s_types.get_intersection_type_name(
+            _get_object_type_name(c, ctx=ctx) for c in components
+        )
+    return t.get_name(ctx.schema)
+
+
 def _get_set_type_id(basetype_id: uuid.UUID) -> uuid.UUID:
     return uuidgen.uuid5(
         s_obj.TYPE_ID_NAMESPACE, 'set-of::' + str(basetype_id))
@@ -531,7 +559,7 @@ def _describe_object_shape(
     ctx: Context,
 ) -> uuid.UUID:
     ctx.schema, mt = t.material_type(ctx.schema)
-    base_type_name = str(mt.get_name(ctx.schema))
+    base_type_name = str(_get_object_type_name(mt, ctx=ctx))
 
     subtypes = []
     element_names = []
@@ -597,7 +625,7 @@ def _describe_object_shape(
 
     assert len(subtypes) == len(element_names)
     poly_sources = [
-        str(src.get_name(ctx.schema)) if src != mt else ''
+        str(_get_object_type_name(src, ctx=ctx)) if src != mt else ''
         for src in sources
     ]
     type_id = _get_object_shape_id(
@@ -748,7 +776,7 @@ def _describe_compound_object_type(
     # The components are a set; order them by name so that the descriptor
     # does not depend on set iteration order.
     components = sorted(
-        components, key=lambda c: str(c.get_name(ctx.schema)))
+        components, key=lambda c: str(_get_object_type_name(c, ctx=ctx)))
     component_ids = [_describe_object_type(c, ctx=ctx) for c in components]
 
     # Compound types are normally created on the fly while a query is
@@ -766,7 +794,7 @@ def _describe_compound_object_type(
     # .id
     buf.append(type_id.bytes)
     # .name
-    buf.append(_name_packer(t.get_name(ctx.schema)))
+    buf.append(_name_packer(_get_object_type_name(t, ctx=ctx)))
     # .schema_defined
     buf.append(_bool_packer(False))
     # .op
